@@ -94,6 +94,14 @@ def rand_valid(rng):
     names = rng.sample(['A', 'B', 'C', 'D'], rng.randint(1, 3))
     base, _ = gens.rand_base_graph(rng, names, nmax=6, max_order=2, p_ring=0.45, p_zero=0.12)
     base = add_multipliers(rng, annotate_nodes(rng, base))
+    unit_start = None
+    if rng.random() < 0.4:
+        # a multiplied unit `anchor(branch)|n` at the end of the chain; faults are placed inside it too (annotation
+        # faults and missing fragments; ring faults inside a multiplied unit are the reader's ring_in_unit class)
+        body = ''.join('[#%s]' % rng.choice(names) for _ in range(rng.randint(1, 2)))
+        unit = annotate_nodes(rng, '[#%s](%s)' % (rng.choice(names), body), p=0.5) + '|%d' % rng.choice([2, 3])
+        unit_start = len(base) - 1
+        base = base[:-1] + unit + '}'
     used = sorted({m.group(0)[2:-1].split(';')[0] for m in NODE_RE.finditer(base)})
     if mode == 'aa':
         levels = ['{' + ','.join('#%s=%s' % (n, aa_fragment(rng)) for n in used) + '}']
@@ -104,7 +112,7 @@ def rand_valid(rng):
         if mode == 'three':
             used2 = sorted({m.group(0)[2:-1].split(';')[0] for t in lv1.values() for m in NODE_RE.finditer(t)})
             levels.append('{' + ','.join('#%s=%s' % (n, aa_fragment(rng)) for n in used2) + '}')
-    return {'parts': [base] + levels, 'aa': mode != 'cg'}
+    return {'parts': [base] + levels, 'aa': mode != 'cg', 'unit_start': unit_start}
 
 
 # ----------------------------------------------------------------------------- structure
@@ -131,6 +139,9 @@ def events(text):
             stack.append(prev); i += 1
         elif c == ')':
             prev = stack.pop(); i += 1
+            mm = re.match(r'[-=#$.]?\|\d+', text[i:])
+            if mm:
+                i += len(mm.group(0))          # branch multiplier: the unit is not written out here (see ring_faults)
         elif c.isdigit():
             evs.append(['R', prev, int(c)]); i += 1
         elif c == '%':
@@ -214,6 +225,9 @@ def ring_faults(valid):
         text = valid['parts'][pi][a:b]
         clean = blank_descriptors(text)
         evs, toks = events(clean)
+        if pi == 0 and valid.get('unit_start') is not None:
+            lim = valid['unit_start'] - a
+            toks = [t for t in toks if t[1] <= lim]
         d = free_digit(text)
         if d is None:
             continue
@@ -254,7 +268,8 @@ def frag_faults(valid):
             inner = m.group(0)[2:-1]
             name = inner.split(';')[0]
             new = text[:m.start()] + '[#ZZ' + inner[len(name):] + ']' + text[m.end():]
-            out.append({'kind': 'frag', 'fault': 3, 's': splice(valid, pi, a, b, new), 'level': pi, 'where': [pi, m.start()]})
+            out.append({'kind': 'frag', 'fault': 3, 's': splice(valid, pi, a, b, new), 'level': pi, 'where': [pi, m.start()],
+                        'in_unit': bool(pi == 0 and valid.get('unit_start') is not None and a + m.start() >= valid['unit_start'])})
     return out
 
 
@@ -284,6 +299,7 @@ def annot_faults(valid):
             tok = pre + ';'.join([head] + new_ents) + ']'
             text = ';'.join(([head] if lk != 1 else []) + new_ents)
             out.append({'kind': 'annot', 'fault': fault, 'lk': lk, 'text': text, 's': splice(valid, pi, a, b, tok),
+                        'in_unit': bool(pi == 0 and valid.get('unit_start') is not None and a >= valid['unit_start']),
                         'where': [pi, a, p]})
         npos_existing = sum(1 for e in ents if '=' not in e)
         for p in range(len(ents) + 1):
@@ -429,7 +445,8 @@ class C20(common.Prop):
         three = {'parts': ['{[#A]=[#B]}', '{#A=[$][#X][#Y;w=2][$],#B=[$][#Y][$]}', '{#X=[$]CC[$],#Y=[$][O;0.5]C[$]}'],
                  'aa': True}
         cg2 = {'parts': ['{[#A][#B]}', '{#A=[$][#X][$][#Y;w=2],#B=[$][$][#X][#Y]}'], 'aa': False}
-        for v in (base, cg, three, cg2):
+        unit = {'parts': ['{[#A;q=1][#B][#A;w=2]([#B;foo=bar][#A])|3}', '{#A=[$]CC[$][$],#B=[$]CO[$]}'], 'aa': True, 'unit_start': 13}
+        for v in (base, cg, three, cg2, unit):
             for f in all_faults(v):
                 out.append(dict(f, aa=v['aa'], valid='.'.join(v['parts'])))
         # call histories: a fragment library is built from the very fragment list of the string first
@@ -538,6 +555,8 @@ class C20(common.Prop):
             if case.get('form') == 'pct':
                 where += ':%nn' + (':last-node' + ('' if case.get('trailing') else ':at-end') if case.get('last') else '')
         hist = 'history:%s:' % case['history']['mode'] if case.get('history') else ''
+        if case.get('in_unit'):
+            hist += 'in-multiplied-unit:'
         return '%sfault%d%s:%dlevels:%s' % (hist, case['fault'], where, levels, impl['exc'] or 'GRAPH')
 
 
